@@ -36,6 +36,7 @@ pub fn requirements(_tier: Tier) -> Vec<(&'static str, u64)> {
         ("values:built", 10_000),
         ("typed-values", 1_000),
         ("escape-next-to-long-plain-run", 2_000),
+        ("built:after-observe-and-single-change", 10_000),
     ]
 }
 
@@ -398,6 +399,16 @@ pub fn run(ctx: &mut Ctx) {
         built::<Cow<str>>(ctx, "Cow::Owned", &h, &exec::mk_cow_owned);
         built::<Cow<str>>(ctx, "Cow::Borrowed", &h, &exec::mk_cow_borrowed);
         let h = hist::rand_hist(&mut r, true);
+        built::<PackageType>(ctx, "PackageType", &h, &exec::mk_typed);
+    }
+    // observe / take apart / change one thing / put together (see hist::stale_hist)
+    let mut r = ctx.rng("c03.stale");
+    for _ in 0..ctx.share(60_000, 1_500_000) {
+        let h = hist::stale_hist(&mut r, false);
+        ctx.st.count("built:after-observe-and-single-change");
+        built::<String>(ctx, "String", &h, &exec::mk_string);
+        built::<SmallString>(ctx, "SmallString", &h, &exec::mk_small);
+        let h = hist::stale_hist(&mut r, true);
         built::<PackageType>(ctx, "PackageType", &h, &exec::mk_typed);
     }
 }
